@@ -24,6 +24,7 @@ TasksAfter(e) ==
       [] e.k = "hide"   -> SetTask(tasks, e.id, LAMBDA t : [t EXCEPT !.visible = FALSE])
       [] e.k = "show"   -> SetTask(tasks, e.id, LAMBDA t : [t EXCEPT !.visible = TRUE])
       [] e.k = "remove" -> SelectSeq(tasks, LAMBDA t : t.id # e.id)
+      [] e.k = "relabel" -> SetTask(tasks, e.id, LAMBDA t : [t EXCEPT !.label = e.label])   \* update(description=): shown at the next refresh
       [] OTHER          -> tasks
 
 WithBroken(x, e) == [x EXCEPT !.broken = e.broken]
@@ -40,7 +41,7 @@ Model(e) ==
       [] e.k = "update"  -> Update(s0, e.rows, e.refresh)
       [] e.k = "refresh" -> Refresh(s0)
       [] e.k = "add"     -> Refresh(s0)        \* add_task refreshes
-      [] e.k \in {"hide", "show", "remove", "advance"} -> s0
+      [] e.k \in {"hide", "show", "remove", "advance", "relabel"} -> s0
       [] e.k \in {"stop", "exit"} -> Stop(s0)
       [] OTHER -> s0
 
